@@ -14,6 +14,15 @@ PROPS = {
         "assumptions": ["model strings are sequences of Unicode scalar values (valid UTF-8 in Go)",
                         "the width theorems are about canonical styled text (what servitor's own style layer produces); hostile strings are covered by the correspondence check only"],
     },
+    "C17": {
+        "groups": [{"name": "C17", "quick": 8000, "thorough": 300000}],
+        "rule": "JSON documents with null/bool/number/string/array/object under keys k, m, z (numbers from an edge pool around 0, +-1, 2^53, 2^63, 2^64, subnormals, huge exponents, random bit patterns and integers around powers of two; strings with control characters, timestamps, URLs, media types) x every accessor x present/absent keys; "
+                "non-trivial = the key is present in the document; distinct by op content",
+        "trusted": ["encoding/json decoding (the model starts from the decoded value, shipped as a typed tree with IEEE bit patterns)",
+                    "time.Parse(RFC3339) and url.Parse as oracle tables computed by the real libraries per case (model parameters `Libs`)",
+                    "Go's uint64(float64) conversion for in-range integral values is exact (language definition)"],
+        "assumptions": ["JSON cannot produce NaN or infinities (encoding/json rejects out-of-range literals)"],
+    },
     "C18": {
         "groups": [{"name": "C18", "quick": 4000, "thorough": 100000},
                    {"name": "C18x", "quick": 6, "thorough": 9, "workers": 1}],
@@ -41,6 +50,12 @@ MANIFEST_TEXT = {
         "design_ref": "DESIGN.md §5.0, §5 C13",
         "note": "Trusted: Lean kernel; the correspondence check (testing) between ansi.go and lean/Model/Ansi.lean; Go regexp semantics of the expand pattern (validated differentially); unicode.IsSpace table as transcribed.",
         "technique": "Lean 4 proof (induction over the wrap state machine) + differential correspondence",
+    },
+    "C17": {
+        "text": "Lean theorems for all JSON values, keys and accessors: each accessor returns exactly absent (missing/null/empty), wrong (other type/unparseable/out of range) or the faithful value; GetNumber returns n iff the double's exact value (computed from its bit pattern with integer arithmetic) is the natural number n < 2^64. Tied to object.go/mime.go by differential correspondence on values decoded by the real encoding/json; number exactness is also checked on every implementation output.",
+        "design_ref": "DESIGN.md §5 C17",
+        "note": "Trusted: Lean kernel; correspondence check (testing); encoding/json, time.Parse, url.Parse as parameters/oracle tables.",
+        "technique": "Lean 4 proof (case analysis over a JSON datatype, bit-exact IEEE-754 model) + differential correspondence",
     },
     "C18": {
         "text": "Refinement theorems in Lean: every history op sequence keeps the invariant, never panics and denotes what a zipper computes; every feed operation preserves the representation of a two-sided sequence, lookups/containment/parent-child agree with positions, append/prepend never move items, moves stay in bounds. Tied to history.go/feed.go by differential correspondence after every step, exhaustive up to a length bound.",
